@@ -410,3 +410,17 @@ def cumulation_and_keyword_shifts_native(B):
                         if not np.allclose(got, want, equal_nan=True, rtol=1e-9):
                             B.fail(f"diff with shift {kw!r} is not x(t) - x(reference period)", {"class": cls.__name__, "period": str(t), "got": got.tolist(), "want": want.tolist()})
                             return
+                    # cumulating the keyword-shift change forward with the original as initial condition reproduces it
+                    if n >= 10 and cls is not D.DailyPeriod:
+                        F_ = int(cls.frequency)
+                        span = (start + F_ + 1) >> (start + n - 1)
+                        for cname, chg in (("cum_diff", ir.diff), ("cum_pct", ir.pct), ("cum_roc", ir.roc), ("cum_diff_log", ir.diff_log)):
+                            B.case()
+                            try:
+                                r = getattr(ir, cname)(chg(x, kw), kw, initial=x, span=span)
+                            except Exception as ex:
+                                B.fail(f"{cname} with shift {kw!r}: exception {type(ex).__name__}: {ex}", {"class": cls.__name__})
+                                return
+                            if not np.allclose(r.get_data(span), x.get_data(span), rtol=1e-9):
+                                B.fail(f"{cname} with shift {kw!r} and the original as initial condition does not reproduce the original", {"class": cls.__name__, "n": n, "variants": nv})
+                                return
